@@ -39,4 +39,6 @@ class FlaskJsonRequest(JsonRequest):
 
     @property
     def data(self):
-        return self._request.get_json()
+        # malformed JSON or another content type: no data, the endpoint
+        # answers with invalid_request
+        return self._request.get_json(silent=True)
